@@ -4,7 +4,7 @@ from __future__ import annotations
 import ast
 
 from ..algebra import canon, is_const, linear_in, monomials, poly, same
-from ..interp import Interp, SELF, Event, Path, contains, field_defs, show, strip_typed, walk
+from ..interp import Interp, SELF, Event, Path, cmp_with_left, contains, field_defs, show, strip_typed, walk
 from ..model import AnalysisError, FuncInfo
 from . import util
 
@@ -584,7 +584,8 @@ def _check_step_path(ctx, K, f, p: Path) -> None:
                        f"the index increment — observables are recorded at the wrong time or not once", entry=f.qualname)
     finished = None
     for c, t in p.cond_log:
-        if c[0] == "cmp" and c[1] == ">=" and contains(c, lambda x: x[0] == "attr" and x[2] == "timestep_count"):
+        o = cmp_with_left(c, lambda x: not contains(x, lambda y: y[0] == "attr" and y[2] == "timestep_count"))
+        if o is not None and o[0] == ">=" and contains(o[2], lambda x: x[0] == "attr" and x[2] == "timestep_count"):
             finished = t
     tgt = [e for e in ev if e.kind == "setattr" and e.name == "target_time" and e.target[0] == SELF]
     upd = [e for e in ev if e.kind == "call" and e.name == "emu_mps.hamiltonian.update_H"
